@@ -56,7 +56,7 @@ def run(ctx, P):
     spec = tuple(P["spec"][:3])
     n = P["n"]
     tf = P.get("tf")
-    cs = mk_candles(ctx, n, start=GRID0 + 60)
+    cs = C01.make_stream(ctx, P)         # the same streams as C01: grid step, and a two-bucket hole when gap filling is on
     kw = C01.common_kw(P)
     full = build_any(spec, candles=clone(cs), **kw)
     full.calculate()
